@@ -530,6 +530,16 @@ class StmtMixin:
             if kk is not None:
                 self.matched_loop_specs.add(kk)
                 return self.top.loop_specs[kk]
+        # a loop of the function under contract that has been moved, unchanged, into a helper of the same class (the helper
+        # is executed in place): the loop contract named by the loop's text still applies to it
+        if key != self.top.key and fr.fi is not None and self.top is not None and alt in self.top.loop_specs and \
+                alt not in self.matched_loop_specs and fr.fi.cls is not None and \
+                self.top.key.split(":")[-1].split(".")[0] == fr.fi.cls.name:
+            top_fi = self.index.function(self.top.file, self.top.qual)
+            from .front import loop_keys
+            if top_fi is not None and alt not in loop_keys(top_fi.node).values():
+                self.matched_loop_specs.add(alt)
+                return self.top.loop_specs[alt]
         return None
 
     def havoc_loop(self, body, extra_modifies=None):
